@@ -40,7 +40,8 @@ func (k c20case) key() string { b, _ := json.Marshal(k); return string(b) }
 
 var c20TaskNames = []string{"build", "test", "lint", "zeta", "alpha", "default", "deploy", "Mid", "default_x", "émile", "_gen", "x_"}
 var c20VarNames = []string{"VERSION", "NAME", "OUT", "flag", "Zed"}
-var c20Docs = []string{" 100% of the build", " Build the thing", "Run tests  ", "  padded  ", " ünï çødé", "x", " # hash inside", " with : punctuation, and (parens)", ""}
+var c20Docs = []string{" 100% of the build", " Build the thing", "Run tests  ", "  padded  ", " ünï çødé", "x", " # hash inside", " with : punctuation, and (parens)", "",
+	" Run the linters, e.g. golangci-lint and go vet", " [WIP] Build the docs", "[1/2] Configure. Then build.", " @deprecated use build", " TODO: write this", " !important"}
 
 func c20Gen(r *core.Rng) c20case {
 	var k c20case
